@@ -16,7 +16,7 @@ Line protocol for C03 (write-back layer of the phase-equilibrium code).  Floats 
   vle.setflows reg|<v> | vle.allvap | vle.allliq | vle.frac V | vle.lever x0 <y>
   vle.condense f | vle.vaporise f                           -> st ..   (or `err infeasible`)
   lle.pool                                                  -> st .. idx=..
-  lle.write none | solve top=<i|-> <molL> | cache top=<i|-> phi <K>    -> st ..
+  lle.write none | solve top=<i|-> <molL> | cache top=<i|-> phi <K> | cacheraw top=<i|-> raw <K>   -> st ..
   sle.update j <idx|all> x msol | sle.allliq j | sle.allsol j | sle.frac j Lf     -> st ..
   vlle.pool | vlle.swap | vlle.normalise <rows> | vlle.assign <rows> | vlle.finish -> st ..
   end <op>                                                  -> st .. cons=b nonneg=b light=b heavy=b
@@ -242,6 +242,12 @@ def step (st : St) (line : String) : St × String :=
       | ["solve", _, v] =>
         (parseVec v).map fun v =>
           (some (.solve v), unmet (boundedOn idx (get v) z 1e-12) "lle-molL-bounded" ++ " tag:solver")
+      | ["cacheraw", _, raw, K] =>
+        match parseFloat? raw, parseVec K with
+        | some raw, some K =>
+          some (some (.cacheRaw raw K), unmet (idx.all fun i => asValidFraction raw * get K i >= 0.0 - 1e-12) "lle-cache-K-nonneg"
+                ++ " tag:cached-K" ++ (if raw < 0.0 || raw > 1.0 then " tag:root-outside-unit-interval" else ""))
+        | _, _ => none
       | ["cache", _, phi, K] =>
         match parseFloat? phi, parseVec K with
         | some phi, some K =>
